@@ -106,6 +106,8 @@ class HistogramND(HistogramBase):
         self, axis: Axis, index: Union[int, slice], *, force_copy: bool = False
     ) -> HistogramBase:
         # TODO: Implement mask?
+        if isinstance(index, np.integer):
+            index = int(index)
 
         if index == slice(None) and not force_copy:
             return self
@@ -151,9 +153,10 @@ class HistogramND(HistogramBase):
         Always returns a new object.
         """
         # TODO: Enable views
-        if isinstance(index, (int, slice)):
+        if isinstance(index, (int, np.integer, slice)):
             return self.select(0, index)
         if isinstance(index, tuple):
+            index = tuple(int(i) if isinstance(i, np.integer) else i for i in index)
             if len(index) > self.ndim:
                 raise IndexError(
                     f"Too many indices ({len(index)}) to select from {self.ndim}D histogram"
